@@ -360,6 +360,9 @@ fn alphabet(thorough: bool) -> Vec<Spec> {
         tx("bridge-withdraw-30-i1-ch0", &W, vec![withdrawal(Some((&BR1, "i1")), &BR1, native.clone(), 30, 0)]),
         tx("unlock-br1-10-i1", &W, vec![unlock(&BR1, &CAROL, 10, "i1")]),
         tx("withdraw-25-utia-ch0", &ALICE, vec![withdrawal(None, &ALICE, utia_here(), 25, 0)]),
+        // authority: a withdrawal naming somebody else's plain account / a bridge the signer does not control
+        tx("withdraw-15-from-ALICE-as-bridge-ch0", &BOB, vec![withdrawal(Some((&ALICE, "i7")), &BOB, native.clone(), 15, 0)]),
+        tx("bridge-withdraw-15-i8-ch0-not-withdrawer", &DAVE, vec![withdrawal(Some((&BR1, "i8")), &DAVE, native.clone(), 15, 0)]),
         inc("recv 60 returning nria -> ALICE ch0", Incoming::Recv {
             denom: returning.clone(),
             amount: 60,
@@ -558,6 +561,15 @@ impl IbcModel {
     }
 }
 
+fn decode_name(acct_b64: &str) -> String {
+    use base64::Engine as _;
+    base64::engine::general_purpose::URL_SAFE
+        .decode(acct_b64)
+        .ok()
+        .and_then(|v| <[u8; 20]>::try_from(v.as_slice()).ok())
+        .map_or_else(|| acct_b64.to_string(), |a| name_of(&a))
+}
+
 fn ledger_of(dump: &Dump) -> BTreeMap<(String, String), Wide> {
     dump.ledger().escrow.iter().map(|(k, v)| (k.clone(), Wide::from_u128(*v))).filter(|(_, v)| !v.is_zero()).collect()
 }
@@ -620,6 +632,7 @@ impl Model for IbcModel {
         let mut recv_seq = st.recv_seq;
         let fork = st.delta.lock().unwrap().fork();
         let mut violation: Option<Violation> = None;
+        let mut auth_violation: Option<Violation> = None;
         let post_state: StateDelta<Snapshot>;
         match &spec.kind {
             Kind::Tx {
@@ -734,6 +747,32 @@ impl Model for IbcModel {
                         }
                         want.retain(|_, v| !v.is_zero());
                         let got = balance_deltas(&pre, &post);
+                        // C02: an account other than the signer only loses funds if it is a bridge
+                        // account whose stored withdrawer is the signer
+                        for ((who, asset), delta) in &got {
+                            let Some(acct) = who.strip_prefix("acct:") else { continue };
+                            if !delta.is_negative() || who == &signer_acct {
+                                continue;
+                            }
+                            let is_bridge = pre.verifiable.contains_key(&format!("bridge/account/{acct}/rollup_id"));
+                            let withdrawer: Option<[u8; 20]> = pre
+                                .verifiable
+                                .get(&format!("bridge/withdrawer/{acct}"))
+                                .and_then(|v| (v.len() >= 20).then(|| v[v.len() - 20..].try_into().unwrap()));
+                            if !(is_bridge && withdrawer == Some(signer.address_bytes())) {
+                                auth_violation = Some(self.viol(
+                                    "C02",
+                                    "funds-only-by-owner",
+                                    "balance of a foreign account decreased",
+                                    format!(
+                                        "{}: balance of {} ({asset}) changed by {delta:?}; signer {} is neither the owner nor its bridge withdrawer",
+                                        spec.name,
+                                        decode_name(acct),
+                                        name_of(&signer.address_bytes())
+                                    ),
+                                ));
+                            }
+                        }
                         if violation.is_none() && got != want {
                             let ibc_form_burn = actions.iter().any(|a| matches!(a, Action::Ics20Withdrawal(w) if matches!(w.denom, Denom::IbcPrefixed(_))));
                             violation = Some(self.viol(
@@ -747,6 +786,11 @@ impl Model for IbcModel {
                                 format!("{}: balance and escrow deltas {got:?}, ICS-20 reference {want:?}", spec.name),
                             ));
                         }
+                    }
+                }
+                if let Some(v) = auth_violation.take() {
+                    if v.clause.starts_with(self.property) {
+                        return Step::Violated(v);
                     }
                 }
                 if let Some(v) = violation.take() {
@@ -1129,6 +1173,11 @@ pub(crate) fn run_ibc(property: &'static str, stage: &str, quick_depth: usize, t
 #[test]
 fn verif_c18_ibc() {
     run_ibc("C18", "ibc", 3, 5);
+}
+
+#[test]
+fn verif_c02_ibc() {
+    run_ibc("C02", "ibc", 3, 5);
 }
 
 #[test]
